@@ -168,6 +168,90 @@ MATS = {0: ("Ar", 188e-6, 1e-5 * 18 ** 2), 1: ("H", 19.2e-6, 1e-5), 2: ("C", 81e
 URBAN_BRANCH = {0: "no-excitation(max_energy<=I)", 1: "no-excitation(w<=logI)", 2: "single-level", 3: "two-level"}
 
 
+
+MAT_Z = {0: 18, 1: 1, 2: 6, 3: 82}
+
+
+def py_urban_ctor(mat, mean_unscaled, max_e, tmb, bsq):
+    """approximate replica of the Urban constructor, used only to aim the generator at the
+    sampling-branch combinations (never compared with anything)"""
+    _, I, E2 = MATS[mat]
+    z = MAT_Z[mat]
+    f1 = 2.0 / z if z > 2 else 0.0
+    f0 = 1 - f1
+    be1 = E2
+    be0 = (I / be1 ** f1) ** (1 / f0)
+    scaling = 0.5 * min(1e-3 / max_e, 1.0) + 1
+    mean = mean_unscaled / scaling
+    xs0 = xs1 = 0.0
+    if max_e > I:
+        w = math.log(tmb) - bsq
+        w0 = math.log(I)
+        if w > w0:
+            if w > math.log(be1):
+                c = mean * 0.44 / (w - w0)
+                xs0 = c * f0 * (w - math.log(be0)) / be0
+                xs1 = c * f1 * (w - math.log(be1)) / be1
+            else:
+                xs0 = mean * 0.44 / be0
+            sc = 4.0 if xs0 >= 42 else 0.5 + 3.5 * math.sqrt(xs0 / 42)
+            xs0 /= sc
+    xsi = mean * (max_e - 1e-5) / (max_e * 1e-5 * math.log(max_e / 1e-5))
+    if xs0 + xs1 > 0:
+        xsi *= 0.56
+    return xs0, xs1, xsi
+
+
+def level_class(xs):
+    return "fast" if xs > 8 else "poisson" if xs > 0 else "none"
+
+
+def combo_of(xs0, xs1, xsi):
+    return "lvl0=%s,lvl1=%s,ion=%s" % (level_class(xs0), level_class(xs1), "fast" if xsi > 8 else "poisson")
+
+
+# reachable combinations of the Urban sampler's branches (lvl1 fast with lvl0 not fast does not occur for real
+# materials: xs0/xs1 >= 4.7; lvl0 none implies lvl1 none)
+URBAN_COMBOS = [(a, b, c) for (a, b) in (("none", "none"), ("poisson", "none"), ("fast", "none"), ("poisson", "poisson"),
+                                         ("fast", "poisson"), ("fast", "fast")) for c in ("fast", "poisson")]
+
+
+def aim_urban(r, target):
+    """random direct-constructor inputs whose sampling branches are `target` = (lvl0, lvl1, ion)"""
+    l0, l1, ion = target
+    for _ in range(400):
+        mat = r.choice([0, 0, 2, 3]) if l1 != "none" else r.choice([0, 1, 2, 3])
+        _, I, E2 = MATS[mat]
+        bsq = r.choice([logu(r, -6, -0.01), 0.5, 0.99])
+        if l0 == "none":
+            max_e = max(I * r.uniform(0.2, 0.99), 1.1e-5) if r.random() < 0.5 or mat == 1 else I * logu(r, 0.01, 2)
+            tmb = I * math.exp(bsq) * r.uniform(0.05, 0.95) if max_e > I else I * logu(r, -1, 3)
+        elif l1 == "none":
+            if mat == 1:
+                tmb = math.exp(bsq) * I * logu(r, 0.01, 4)
+            else:
+                tmb = math.exp(bsq) * r.uniform(I * 1.01, E2 * 0.99)
+            max_e = max(I * logu(r, 0.01, 3 if ion == "fast" else 5.5), 1.1e-5)
+        else:
+            tmb = math.exp(bsq) * E2 * logu(r, 0.05, 4)
+            max_e = max(I * logu(r, 0.01, 3 if ion == "fast" else 5.5), 1.1e-5)
+        # all cross sections scale (almost) linearly with the mean: pick the scale for the wanted level
+        x0, x1, xi = py_urban_ctor(mat, 1.0, max_e, tmb, bsq)
+        want = {"fast": logu(r, 1.0, 2.5), "poisson": logu(r, -0.3, 0.85)}
+        if l1 in want and x1 > 0:
+            mean = want[l1] / x1
+        elif l0 in want and x0 > 0:
+            mean = want[l0] / x0 * r.choice([1.0, 2.0])
+        else:
+            mean = want[ion] / xi
+        mean *= r.choice([1.0, 1.0, logu(r, -0.5, 0.5)])
+        if not (1e-7 < mean < 1e3):
+            continue
+        if combo_of(*py_urban_ctor(mat, mean, max_e, tmb, bsq)) == "lvl0=%s,lvl1=%s,ion=%s" % target:
+            return [mat, mean, max_e, tmb, bsq]
+    return None
+
+
 def energy_for_tmb(tmb, mass):
     """kinetic energy with 2 m_e beta^2 gamma^2 = tmb"""
     bg2 = tmb / (2 * ME)
@@ -187,6 +271,13 @@ def gen_eloss_cases(ctx, n):
             mean = logu(r, -4, 1)
             var = mean * mean * r.choice([logu(r, -2, 1.5), 1.0, 0.25])
             cases.append(("gammad", [mean, var], nz(gen_u(r, 80, extremes=False))))
+        elif c == 7 or (c == 3 and i % 16 >= 8):
+            # direct Urban constructor aimed at one combination of the SAMPLING branches
+            tgt = URBAN_COMBOS[(i // 8) % len(URBAN_COMBOS)]
+            pr = aim_urban(r, tgt)
+            if pr is None:
+                pr = [0, 0.02, 1e-3, 400.0, 0.99]
+            cases.append(("urbanctor", pr, nz(gen_u(r, 700, extremes=False))))
         elif c in (2, 3):
             # direct Urban constructor, aimed at each excitation branch and both width-correction branches
             mat = r.choice([0, 0, 1, 2, 3])
@@ -265,7 +356,7 @@ def run_eloss(ctx, proofs_ok):
         if k in ("gauss", "gammad"):
             impl = None if tok[0] == "exhausted" else ([fx(tok[2])] + ([fx(tok[3])] if k == "gauss" else []), int(tok[1]))
             exprs.append(("run_elgauss %s %s %s" if k == "gauss" else "run_elgamma %s %s %s") % (hexf(p[0]), hexf(p[1]), fl(u)))
-            meta.append((k, p, u, impl, None, None))
+            meta.append((k, p, u, impl, None, None, None))
             continue
         if k == "urbanctor":
             consumed, loss = int(tok[1]), fx(tok[2])
@@ -276,7 +367,7 @@ def run_eloss(ctx, proofs_ok):
             smp = "run_elurban %s %s" % (" ".join(hexf(x) for x in state), fl(u))
             exprs.append("(3%%nat, %s, %s)" % (ctor, smp))
             impl = None if consumed < 0 else ([loss], consumed)
-            meta.append((k, p, u, impl, 3, {"state": state, "mean": mean, "matp": matp}))
+            meta.append((k, p, u, impl, 3, {"state": state, "mean": mean, "matp": matp}, None))
             continue
         model, consumed, loss = int(tok[1]), int(tok[2]), fx(tok[3])
         f = [fx(t) for t in tok[4:]]
@@ -306,11 +397,13 @@ def run_eloss(ctx, proofs_ok):
             smp = "Some ([%s], 0%%nat)" % hexf(mean_loss)
         exprs.append("(%s, %s, %s)" % (sel, ctor, smp))
         impl = None if consumed < 0 else ([loss], consumed)
-        meta.append((k, p, u, impl, model, extra))
+        meta.append((k, p, u, impl, model, extra, {"mean_loss": mean_loss, "max_energy": me_sel, "max_energy_transfer": mt,
+                                                   "mass_ratio": mr, "bohr_var": bohr}))
     mvals = ctx.coq_eval("eloss", PRE, exprs, chunk=max(20, len(exprs) // 16 + 1), timeout=1200)
     ndis = 0
+    urban_checked = []
     names = {0: "none", 1: "gamma", 2: "gaussian", 3: "urban"}
-    for (k, p, u, impl, model, extra), mv in zip(meta, mvals):
+    for (k, p, u, impl, model, extra, extra_sel), mv in zip(meta, mvals):
         if k in ("eloss", "urbanctor"):
             msel, mctor, mv = mv
             if k == "eloss":
@@ -321,8 +414,17 @@ def run_eloss(ctx, proofs_ok):
                         ctx.count("knife-edge-accepted")
                     else:
                         ndis += 1
-                        ctx.violation("correspondence", "EnergyLossHelper picks model %s, the model of it %s" % (names[model], names.get(msel)),
-                                      {"params": p, "impl_model": model, "coq_model": msel}, no_input=True)
+                        # concrete input straight from the differential: the helper's own (mean, Bohr variance) and both answers;
+                        # plus the documented criterion evaluated independently (Gaussian iff mean >= 2 sigma_Bohr)
+                        hv = extra_sel
+                        doc = None
+                        if model in (1, 2) or msel in (1, 2):
+                            doc = "gaussian" if hv["mean_loss"] >= 2 * math.sqrt(hv["bohr_var"]) else "gamma"
+                        ctx.violation("model-selection", "EnergyLossHelper picks model %s; the Coq definition of the documented rule gives %s%s "
+                                      "(mean loss %r MeV, Bohr variance %r MeV^2, mean^2/(4 var) = %s)"
+                                      % (names[model], names.get(msel), "" if doc is None else " and the documented criterion mean >= 2 sigma gives " + doc,
+                                         hv["mean_loss"], hv["bohr_var"], "%.4g" % (hv["mean_loss"] ** 2 / (4 * hv["bohr_var"])) if hv["bohr_var"] > 0 else "n/a"),
+                                      dict(hv, params=p, impl_model=names[model], coq_model=names.get(msel), documented=doc))
                         continue
             if extra is not None:
                 # --- Urban constructor: (a) the property's own oracle on the implementation's parameters:
@@ -335,7 +437,7 @@ def run_eloss(ctx, proofs_ok):
                 mstate, mbr = list(mctor[0]), mctor[1]
                 ctx.count("urban-ctor-branch:" + URBAN_BRANCH.get(mbr, "?"))
                 ctx.count("urban-width-correction:" + ("none" if mbr < 2 else "xs0<42" if xs0 * (be0 / extra["matp"][2]) < 42 else "xs0>=42"))
-                ctx.count("urban-sampling:exc0=%s,ion=%s" % ("fast" if xs0 > 8 else "poisson" if xs0 > 0 else "off", "fast" if xsi > 8 else "poisson"))
+                ctx.count("urban-sampling:" + combo_of(xs0, xs1, xsi))
                 if not close(mom, mean, rtol=1e-9):
                     ctx.violation("urban-mean", "Urban model parameters do not reproduce the requested mean energy loss: "
                                   "scaling*(xs0*E0 + xs1*E1 + xs_ion*<E_ion>) = %r, requested %r (%+.2f%%), branch %s"
@@ -374,6 +476,14 @@ def run_eloss(ctx, proofs_ok):
                 ctx.violation("support", bad, {"kind": k, "params": p, "stream": u[:impl[1]], "impl": impl, "model": mdl})
                 continue
         if not (impl is not None and mdl is not None and impl[1] == mdl[1] and close(impl[0], mdl[0], rtol=1e-9, atol=1e-300)):
+            if k == "urbanctor" and len(urban_checked) < 4:
+                # broken tie in the Urban sampler: look for a concrete failing input with the property's own (mean) oracle
+                urban_checked.append(p)
+                res = urban_mean_check(ctx, exe, p, 100 + len(urban_checked))
+                if not res["ok"]:
+                    ctx.violation("urban-sample-mean", "mean of %d Urban energy-loss samples is %+.2f%% off the requested mean (std err %.2f%%), branches %s"
+                                  % (res["n"], res["rel_diff_percent"], res["std_err_percent"], res["branches"]), res)
+                    continue
             ndis += 1
             if ndis <= 5:
                 ctx.violation("correspondence", "model and implementation differ for %s%s" % (k, "" if model is None else ":" + names[model]),
@@ -498,6 +608,56 @@ def law_oracle(ctx, exe, kind, p, n=4000, tag=0):
            "empirical_mean": sum(xs) / len(xs), "analytic_mean": mean, "stream_seed": ctx.seed * 7919 + tag}
     res["ok"] = ks <= 2.8 and abs(z) <= 6.0
     return res
+
+
+
+def urban_mean_check(ctx, exe, pr, tag, n=1500, per=120):
+    """sampling-side mean oracle for the Urban model at one parameter point (direct constructor):
+    sample mean vs requested mean, |diff| <= 6 standard errors + 0.5 % (never a false alarm)"""
+    rr = __import__("random").Random(ctx.seed * 7919 + 5000 + tag)
+    u = [max(rr.random(), 2.0 ** -60) for _ in range(per * n)]
+    inp = "urbanN %d %s %d %d %s\n" % (pr[0], " ".join(float(x).hex() for x in pr[1:]), n, len(u), " ".join(float(x).hex() for x in u))
+    rc, out = ctx.run_harness(exe, input=inp, timeout=600)
+    tok = out.split()
+    xs3 = [float.fromhex(t) for t in tok[1:4]]
+    xs = [float.fromhex(t) for t in tok[4:]]
+    mean = pr[1]
+    if len(xs) < 200:
+        return {"ok": True, "skipped": "only %d samples" % len(xs), "params": pr}
+    m = sum(xs) / len(xs)
+    sd = math.sqrt(sum((x - m) ** 2 for x in xs) / (len(xs) - 1))
+    # the ionisation law ~ 1/E^2 up to max_energy is heavy-tailed: the sample mean is only meaningful when the top decade
+    # of the tail is populated (expected collisions there >~ 30); its variance xs_ion*e0*Emax is added analytically
+    e0, emax = 1e-5, pr[2]
+    tail_events = len(xs) * xs3[2] * e0 / emax
+    if tail_events < 30:
+        return {"ok": True, "skipped": "thin step: ionisation tail too sparsely sampled for a mean test (%.2g expected events in the top decade)" % tail_events,
+                "params": pr, "branches": combo_of(*xs3)}
+    se = math.sqrt(sd * sd / len(xs) + 2.25 * xs3[2] * e0 * emax / len(xs))
+    res = {"sampler": "EnergyLossUrbanDistribution", "params(material,mean,max_energy,two_mebsgs,beta_sq)": pr, "branches": combo_of(*xs3),
+           "n": len(xs), "sample_mean": m, "requested_mean": mean, "rel_diff_percent": round(100 * (m / mean - 1), 3),
+           "std_err_percent": round(100 * se / mean, 3), "stream_seed": ctx.seed * 7919 + 5000 + tag}
+    res["ok"] = abs(m - mean) <= 6 * se + 0.005 * mean
+    return res
+
+
+def urban_sampling_mean_oracle(ctx, exe):
+    r = ctx.rng
+    regimes = [("fast", "poisson", "fast"), ("fast", "poisson", "fast"), ("fast", "fast", "fast"), ("poisson", "poisson", "fast"),
+               ("poisson", "none", "fast"), ("none", "none", "fast"), ("fast", "none", "fast")]
+    pts = [aim_urban(r, t) for t in regimes]
+    # thick steps of a relativistic electron in argon (100 MeV: 2 m beta^2 gamma^2 = 3.95e4 MeV, cut 1 keV)
+    pts += [[0, 0.02, 1e-3, 3.95e4, 0.99997], [0, r.uniform(0.016, 0.06), 1e-3, 3.95e4, 0.99997], [0, 0.3, 1e-3, 3.95e4, 0.99997]]
+    rep = []
+    for i, pr in enumerate(pts):
+        if pr is None:
+            continue
+        res = urban_mean_check(ctx, exe, pr, i)
+        rep.append(res)
+        if not res["ok"]:
+            ctx.violation("urban-sample-mean", "mean of %d Urban energy-loss samples is %+.2f%% off the requested mean (std err %.2f%%), branches %s"
+                          % (res["n"], res["rel_diff_percent"], res["std_err_percent"], res["branches"]), res)
+    ctx.coverage["urban_sampling_mean_oracle (statistical: 1500 samples per regime, 6 sigma + 0.5%)"] = rep
 
 
 def boundary_law_oracle(ctx, exe_s, exe_e):
@@ -694,6 +854,7 @@ def run(ctx):
                 break
     n_eloss, exe_e = run_eloss(ctx, proofs_ok)
     boundary_law_oracle(ctx, exe, exe_e)
+    urban_sampling_mean_oracle(ctx, exe_e)
     if ctx.tier == "thorough":
         run_stats(ctx, exe)
     else:
